@@ -364,7 +364,7 @@ class KeyPath(formatting.Formattable):
           raise KeyError(
               f'Cannot query index ({key}) on object ({src!r}): '
               f'\'__len__\' does not exist.')
-        if key < len(src):
+        if -len(src) <= key < len(src):
           return self._query(key_pos + 1, src[key], use_inferred)
       else:
         if not hasattr(src, '__contains__'):
